@@ -125,6 +125,14 @@ theorem one_schedule {γ : Type} (g0 : γ) (s : Lin.St γ (Lin.CfgOp γ) γ) (h 
     ∀ p ∈ Lin.lins s.evs, p.2 = g0 ∨ ∃ q ∈ Lin.lins s.evs, q.1 = .install p.2 :=
   Lin.legal_cfg_outputs g0 s.data _ (Lin.linearizable (Lin.cfgSpec γ) g0 s h).1
 
+/-- the data of a `MutexMap` / a function object's schedule changes ONLY at the access of an operation that holds the
+    WRITE lock (read operations are pure in both specifications) — with `one_section_objects_linearizable` (3): at that
+    moment no other thread is inside any section -/
+theorem data_changes_only_under_write_lock {κ ν : Type} [DecidableEq κ]
+    (s s' : Lin.St (List (κ × ν)) (Lin.MapOp κ ν) (Lin.MapOut κ ν)) (st : Lin.Step Lin.mapSpec s s')
+    (hchg : s'.data ≠ s.data) : ∃ t op, s.pcs t = .locked op ∧ Lin.mapSpec.isWrite op = true :=
+  Lin.reader_access_keeps_data Lin.mapSpec Lin.mapSpec_reads_pure s s' st hchg
+
 /-- the sequential specification of `Insert` is test-and-set: a second insert of a key is refused and changes nothing
     (kernel-evaluated; the non-atomic variant is what seeded change C19-1 / C19-f13 introduce) -/
 example : ((Lin.mapSpec (κ := Nat) (ν := Nat)).apply ((Lin.mapSpec.apply [] (.insert 1 10)).1) (.insert 1 20)).1 = [(1, 10)] := by
